@@ -438,20 +438,22 @@ class Gen:
         loops = rsx.fn_loops(text)
         self.loop_counts[qual] = len(loops)
         if record and not is_stub:
-            # syntactic census obligations (facts about the shape of the real body, not solver obligations)
+            # syntactic census obligations (facts about the shape of the real body, not solver obligations);
+            # `census_props=` tags them with other properties than the function's contract clauses
+            cprops = [p for p in opts.get('census_props', '').split(',') if p] or props
             if 'maxloops' in opts:
                 ok = len(loops) <= int(opts['maxloops'])
                 self.syntactic.append((qual, 'census/at-most-%s-loops' % opts['maxloops'], ok,
-                                       '%d loop(s) in the body' % len(loops), props, (rel, it.line_start)))
+                                       '%d loop(s) in the body' % len(loops), cprops, (rel, it.line_start)))
             if 'calls' in opts:
                 for spec in opts['calls'].split(','):
                     callee, want = spec.split(':')
                     n = len(re.findall(r'\b%s\s*\(' % re.escape(callee), masked[body_open:body_close]))
                     self.syntactic.append((qual, 'census/calls-%s-exactly-%s-times' % (callee, want), n == int(want),
-                                           '%d call site(s) of %s in the body' % (n, callee), props, (rel, it.line_start)))
+                                           '%d call site(s) of %s in the body' % (n, callee), cprops, (rel, it.line_start)))
             if 'norecursion' in opts:
                 n = len(re.findall(r'\b%s\s*\(' % re.escape(name), masked[body_open:body_close]))
-                self.syntactic.append((qual, 'census/not-self-recursive', n == 0, '%d self call(s)' % n, props, (rel, it.line_start)))
+                self.syntactic.append((qual, 'census/not-self-recursive', n == 0, '%d self call(s)' % n, cprops, (rel, it.line_start)))
         inserts = []  # (offset, order, section dict)
         if self.canary and not is_stub and 'no_canary' not in opts:
             sections = self.add_canary(sections)
